@@ -29,6 +29,10 @@ def check(run):
     run.attempt(defaults, run, p)
     run.attempt(flagtable, run, p)
     run.attempt(applicable, run, p)
+    # what the command line leaves on disk is what the library decided: the detection output file (C06-OUTFILE)
+    from .common import shared_rule
+    from .c06 import outfile as _outfile
+    shared_rule(run, _outfile, (run, p), 'C06-OUTFILE', 'C17-OUTFILE', ' (tdda detect run again on clean data leaves no file from the earlier run)')
     from .common import observed_rule
     calc = p.cls('PandasConstraintCalculator')
     n = observed_rule(run, 'C17-OBSERVED', p, list(calc.methods.values()),
